@@ -264,7 +264,7 @@ class FSpec:
         ex.fn_entry = st0
         alloc0 = st0.alloc_arr()
         st.obl.append({"name": f"{self.qual}/canary:precondition-not-contradictory", "pc": list(st.pc), "goal": z3.BoolVal(False), "kind": "canary", "expect": "fail"})
-        ex.fn_stack.append((self.fn.name, self.cls))
+        ex.fn_stack.append((self.fn.name, self.cls, self.fn))
         outs = ex.run(self.fn.body, st)
         ex.fn_stack.pop()
         n_paths = 0
@@ -625,4 +625,38 @@ class ForEachTrace:
                 if v is not None and v.term is not None and v.ty[0] in ("ref", "int", "real", "bool", "opt"):
                     s1.env[nme] = fresh(v.ty, nme)
             out.append((s1, "fall", None))
+        return out
+
+
+class GuardedSingleton:
+    """`for m in D.values(): if m == X: BODY` (D a dict whose values are pairwise distinct -- stated assumption):
+    BODY runs once with m := X if X is a value of D, otherwise the loop does nothing. The loop shape is checked on the AST."""
+
+    def __init__(self, header=None, name="guarded-singleton"):
+        self.header, self.name = header, name
+
+    def run_for(self, ex, s, st, d):
+        import ast as _ast
+        ok = (len(s.body) == 1 and isinstance(s.body[0], _ast.If) and not s.body[0].orelse and isinstance(s.body[0].test, _ast.Compare)
+              and len(s.body[0].test.ops) == 1 and isinstance(s.body[0].test.ops[0], _ast.Eq) and isinstance(s.body[0].test.left, _ast.Name)
+              and isinstance(s.target, _ast.Name) and s.body[0].test.left.id == s.target.id and not s.orelse)
+        if not ok:
+            raise Unsupported(f"anchor-lost: loop `{self.name}` is no longer of the shape `for m in D.values(): if m == X: BODY`")
+        for nn in _ast.walk(s):
+            if isinstance(nn, (_ast.Break, _ast.Continue, _ast.Return)):
+                raise Unsupported(f"loop `{self.name}`: break/continue/return in a guarded-singleton loop")
+        ex.used_assumptions.add("values of a name->market dict are pairwise distinct (market names are unique), so `for m in D.values(): if m == X` runs its body at most once")
+        out = []
+        for s1, it in ex.ev(s.iter, st, d):
+            if it.ty[0] != "dictvalues":
+                raise Unsupported("guarded-singleton loop over a non-dict")
+            for s2, x in ex.ev(s.body[0].test.comparators[0], s1, d):
+                isval = ex.contains(s2, it, x, d)
+                sa = s2.copy(); sa.assume(isval)
+                if feasible(sa.pc):
+                    sa.env[s.target.id] = V(x.ty, x.term)
+                    out += ex.run(s.body[0].body, sa, d)
+                sb = s2.copy(); sb.assume(z3.Not(isval))
+                if feasible(sb.pc):
+                    out.append((sb, "fall", None))
         return out
